@@ -18,6 +18,46 @@ def pick_k(node, defs, tier):
     return 1
 
 
+def surrogate_data(node, defs):
+    """The base datum with one string position (value or map key) replaced by an unencodable string."""
+    from ..ref.names import deref
+
+    out = []
+
+    def walk(n, build):
+        n = deref(n, defs)
+        k = n["k"]
+        if k == "string" and "logical" not in n:
+            for u in alphabet.UNENCODABLE:
+                out.append(build(u))
+        elif k == "array":
+            walk(n["items"], lambda v: build([v]))
+        elif k == "map":
+            for u in alphabet.UNENCODABLE[:1]:
+                try:
+                    out.append(build({u: alphabet.base(n["values"], defs)}))
+                except Exception:
+                    pass
+            walk(n["values"], lambda v: build({"a": v}))
+        elif k == "record" and len(out) < 30:
+            try:
+                b = alphabet.base(n, defs)
+            except Exception:
+                return
+            for f in n["fields"]:
+                walk(f["type"], lambda v, f=f: build(dict(b, **{f["name"]: v})))
+        elif k == "union":
+            for br in n["branches"]:
+                if deref(br, defs)["k"] == "string":
+                    walk(br, build)
+
+    try:
+        walk(node, lambda v: v)
+    except Exception:
+        pass
+    return out[:12]
+
+
 def twin(raw):
     """A schema defining the same names differently: enum symbols rotated, record
     fields reversed, fixed size + 1.  None when nothing would change."""
@@ -95,6 +135,20 @@ def run_unit(i, tier, checks):
             res.evals += 1
             for v in rt.evaluate(fa, c, d, checks):
                 res.add(v)
+    # strings that are not Unicode text (lone surrogates) have no UTF-8 form: the writer must refuse them
+    if "c02" in checks:
+        import io as _io
+
+        for path_datum in surrogate_data(node, defs):
+            for c in cases[:1]:
+                res.evals += 1
+                fo = _io.BytesIO()
+                try:
+                    fa.schemaless_writer(fo, c.schema, path_datum)
+                except Exception:
+                    continue
+                res.add(Violation("c02.utf8", "ill-formed-utf8-emitted", f"a string with a lone surrogate was written as {fo.getvalue()[:40].hex()} (not UTF-8) instead of being refused | {short(raw, 300)} datum={short(path_datum, 200)}",
+                                  {"schema": raw, "datum": path_datum, "form": "raw"}))
     # the same type names with different definitions, then the original again, in this same
     # process: anything remembered per type name across calls shows up here (deterministically)
     tw = twin(raw)
